@@ -12,7 +12,8 @@ RULE = ("Two Hypothesis searches. roundtrip: lists of 0-6 files (names 0-12 prin
         "/ up to 65535, content with block markers 55 3C 00/01/FF) are written with CassetteFile.add_files, the "
         "bytes re-opened with CassetteFile(buffer=...).list_files() and compared field by field with the input; the "
         "writing object itself is then rebuilt file by file and listed after every addition (and twice at the end), "
-        "each listing compared with the files added so far, the final image with the add_files image. "
+        "each listing compared with the files added so far, the final image with the add_files image; finally the same "
+        "file objects are written to a second tape with the first of them twice. "
         "foreign: the same file lists are written by an independent variant writer (leader lengths 1-400, zero gaps "
         "0-300, gap-flagged files with leaders between data blocks, data blocks of arbitrary sizes 1-255, trailing "
         "leader) and listed by the tool. Enumerated: single file of every length 0..1100 (quick) / 0..4000 "
@@ -133,7 +134,8 @@ def execute(case):
     try:
         if case["mode"] == "roundtrip":
             tape = CassetteFile()
-            tape.add_files([filegen.to_coco(f, d) for f, d in zip(files, datas)])
+            cocos = [filegen.to_coco(f, d) for f, d in zip(files, datas)]
+            tape.add_files(cocos)
             image = list(tape.get_buffer())
         else:
             spec = []
@@ -169,6 +171,13 @@ def execute(case):
             if list(tape.get_buffer()) != image:
                 return viol("adding the files one by one gives a different image than adding the list",
                             fid="C06:incremental-image", labels=sorted(set(labels)))
+            # a list may hold the same file twice, and the same file objects may be written to a second tape
+            again = CassetteFile()
+            again.add_files(cocos + cocos[:1])
+            bad = listing_mismatch(CassetteFile(buffer=list(again.get_buffer())).list_files(), files + files[:1], datas + datas[:1])
+            if bad is not None:
+                return viol("the same file objects written to a second tape, the first of them twice: {}".format(bad[1]),
+                            fid="C06:reused-objects", labels=sorted(set(labels)))
         except Exception as err:
             return viol("listing the written object raised {}: {}".format(type(err).__name__, err),
                         fid="C06:raise-same-object:" + type(err).__name__, labels=sorted(set(labels)))
